@@ -509,7 +509,8 @@ def audit(prop):
                 mm = re.search(r"depends on axioms: \[(.*?)\]", ax_txt, re.S)
                 axioms = [a.strip() for a in mm.group(1).replace("\n", " ").split(",")] if mm else None
             ob["axioms"] = axioms
-            if axioms is None or "error" in m.group(1) or "unknown" in m.group(1).split(":")[0]:
+            bad_elab = re.search(r"(^|\n)\S*:\d+:\d+: error|unknown (constant|identifier)", m.group(1)) is not None
+            if axioms is None or bad_elab:
                 ob["why"] = "could not read axioms / statement"
             elif not set(axioms) <= STD_AXIOMS:
                 ob["why"] = "non-standard axioms: %s" % sorted(set(axioms) - STD_AXIOMS)
